@@ -118,6 +118,10 @@ def _on_raise(exc, args, kwargs):
 
 
 def _install(ctx):
+    if _state.get('installed'):
+        _state['ctx'] = ctx
+        return
+    _state['installed'] = True
     import parso.grammar
     import parso.normalizer
     _state['ctx'] = ctx
